@@ -23,12 +23,186 @@ class Classes10(G.Classes):
             cls = G.Classes.build(self, dict(sj, default=None)).using(default=G.py(sj["default"]))
             self.register(sj["cid"], cls, "date")
             return cls
+        if sj.get("decl"):
+            return self.build_decl(sj)
         return G.Classes.build(self, sj)
+
+    def build_decl(self, sj):
+        """the class is DECLARED: `class X(Schema)` / `SparseSchema` / `Form`, single and multiple inheritance,
+        attribute declarations, `field_schema = [...]` lists, `Dict.of(...)` classes among the bases"""
+        import flatland
+        d = sj["decl"]
+        sparse = d["base"] == "sparse_schema"
+        base0 = {"schema": flatland.Schema, "sparse_schema": flatland.SparseSchema, "form": flatland.Form}[d["base"]]
+        pool = [self.build(p) for p in d["pool"]]
+        made = {}
+        for c in d["classes"]:
+            if c.get("dict_of") is not None:
+                made[c["id"]] = (flatland.SparseDict if sparse else flatland.Dict).of(*[pool[i] for i in c["dict_of"]])
+            else:
+                bases = tuple(made[b] for b in c["bases"])
+                if not any(issubclass(b, base0) for b in bases):
+                    bases = (base0,) + bases
+                members = {}
+                if c.get("field_schema") is not None:
+                    members["field_schema"] = [pool[i] for i in c["field_schema"]]
+                for name, i in c["attrs"]:
+                    members[name] = pool[i]
+                made[c["id"]] = type(base0)(str(c["id"]), bases, members)
+            if c.get("use"):
+                try:
+                    inst = made[c["id"]]()
+                    inst.field_schema_mapping
+                    for f in list(made[c["id"]].field_schema)[:2]:
+                        inst._field_schema_for(f.name)
+                except Exception:
+                    pass
+        cls = made[d["classes"][-1]["id"]].named(sj["name"])
+        over = {"optional": bool(sj["opt"]), "policy": None if sj["policy"] == "none" else sj["policy"]}
+        if sj["default"] is not None:
+            over["default"] = G.py(sj["default"])
+        if sparse:
+            over["minimum_fields"] = "required" if sj["minreq"] else None
+        cls = cls.using(**over)
+        self.register(sj["cid"], cls, sj["k"])
+        return cls
+
+
+def decl_overlay(d):
+    """the documented overlay, computed from the DECLARATION (never read from a class): a class's fields are its
+    bases' fields — left-most base first, a name already collected is skipped — overlaid by its own `field_schema`
+    list and then by its own attribute declarations (an own declaration replaces the inherited field of that name)"""
+    pool = d["pool"]
+    fields = {}
+    for c in d["classes"]:
+        if c.get("dict_of") is not None:
+            fields[c["id"]] = list(c["dict_of"])
+            continue
+        out = []
+        for b in c["bases"]:
+            for i in fields[b]:
+                if pool[i]["name"] not in [pool[j]["name"] for j in out]:
+                    out.append(i)
+        for i in list(c.get("field_schema") or []) + [i for _, i in c["attrs"]]:
+            out = [j for j in out if pool[j]["name"] != pool[i]["name"]] + [i]
+        fields[c["id"]] = out
+    return fields
+
+
+def _mro_ok(classes):
+    """would Python accept the class graph?  (stand-ins with the same shape: Dict <- Schema, Dict <- Dict.of(...))"""
+    DictB = type("DictB", (), {})
+    SchemaB = type("SchemaB", (DictB,), {})
+    made = {}
+    try:
+        for c in classes:
+            if c.get("dict_of") is not None:
+                made[c["id"]] = type(str(c["id"]), (DictB,), {})
+                continue
+            bases = tuple(made[b] for b in c.get("bases", []))
+            if not any(issubclass(b, SchemaB) for b in bases):
+                bases = (SchemaB,) + bases
+            made[c["id"]] = type(str(c["id"]), bases, {})
+    except TypeError:
+        return False
+    return True
+
+
+def gen_decl(rng, cid, sparse):
+    """a declaration: a pool of field classes (several DIFFERENT classes may carry the same name) and a small class graph"""
+    names = rng.sample(G.NAMES, rng.randint(2, 4))
+    pool = []
+    for nm in names:
+        for _ in range(rng.choice([1, 2, 2, 3])):
+            f = G.gen_schema(rng, cid, 0, name=nm) if rng.random() < 0.85 else \
+                G.gen_schema(rng, cid, 1, name=nm, kinds=["list", "dict", "array", "sparse"])
+            pool.append(f)
+    byname = {}
+    for i, f in enumerate(pool):
+        byname.setdefault(f["name"], []).append(i)
+
+    def attrs(p=0.5, names_=None):
+        out = []
+        for nm in (names_ or names):
+            if rng.random() < p:
+                out.append([nm, rng.choice(byname[nm])])
+        rng.shuffle(out)
+        return out
+
+    for _ in range(30):
+        r = rng.random()
+        if r < 0.25:
+            # a true diamond: one arm overrides a field of the root, the other inherits it
+            n0 = names[0]
+            a, b = (byname[n0] * 2)[:2]
+            root = {"id": "Root", "bases": [], "attrs": [[n0, a]] + attrs(0.6, names[1:])}
+            left = {"id": "Left", "bases": ["Root"], "attrs": [[n0, b]] + attrs(0.2, names[1:])}
+            right = {"id": "Right", "bases": ["Root"], "attrs": attrs(0.4, names[1:])}
+            arms = ["Left", "Right"] if rng.random() < 0.6 else ["Right", "Left"]
+            classes = [root, left, right, {"id": "Diamond", "bases": arms, "attrs": attrs(0.15)}]
+        elif r < 0.45:
+            # unrelated bases declaring the same name
+            n0 = names[0]
+            ids = ["P", "Q", "R"][:rng.choice([2, 2, 3])]
+            classes = [{"id": x, "bases": [], "attrs": [[n0, rng.choice(byname[n0])]] + attrs(0.5, names[1:])} for x in ids]
+            rng.shuffle(ids)
+            classes.append({"id": "Both", "bases": ids, "attrs": attrs(0.15)})
+        else:
+            classes = []
+            for k in range(rng.choice([1, 2, 3, 4, 5])):
+                earlier = [c["id"] for c in classes]
+                nb = min(len(earlier), rng.choice([0, 1, 1, 2, 2, 3]))
+                c = {"id": "K%d" % k, "bases": rng.sample(earlier, nb), "attrs": attrs(0.5 if nb == 0 else 0.3)}
+                if nb == 0 and rng.random() < 0.15:
+                    c = {"id": "K%d" % k, "bases": [], "attrs": [], "dict_of": [i for _, i in attrs(0.7)] or [0]}
+                elif rng.random() < 0.2:
+                    c["field_schema"] = [i for _, i in attrs(0.5)]       # `field_schema = [...]` in the class body
+                classes.append(c)
+            if classes[-1].get("dict_of") is not None:
+                classes.append({"id": "Last", "bases": [classes[-1]["id"]], "attrs": attrs(0.3)})
+        for c in classes:
+            if rng.random() < 0.25:
+                c["use"] = True          # an instance of the intermediate class is built before the next class is declared
+        d = {"base": "sparse_schema" if sparse else rng.choice(["schema", "schema", "form"]), "pool": pool, "classes": classes}
+        if not _mro_ok(classes):
+            continue
+        final = decl_overlay(d)[classes[-1]["id"]]
+        if final:
+            return d, [dict(pool[i]) for i in final]
+    classes = [{"id": "K0", "bases": [], "attrs": [[names[0], byname[names[0]][0]]]}]
+    d = {"base": "sparse_schema" if sparse else "schema", "pool": pool, "classes": classes}
+    return d, [dict(pool[byname[names[0]][0]])]
+
+
+def decl_tags(d):
+    t = ["decl:base=" + d["base"], "decl:classes=%d" % len(d["classes"])]
+    pool = d["pool"]
+    fields = decl_overlay(d)
+    for c in d["classes"]:
+        if len(c.get("bases", [])) >= 2:
+            t.append("decl:multiple-inheritance")
+            seen = {}
+            for b in c["bases"]:
+                for i in fields[b]:
+                    nm = pool[i]["name"]
+                    if nm in seen:
+                        t.append("decl:overlap-same-class" if seen[nm] == i else "decl:overlap-DIFFERENT-class")
+                    else:
+                        seen[nm] = i
+        inherited = {pool[i]["name"] for b in c.get("bases", []) for i in fields[b]}
+        if any(nm in inherited for nm, _ in c.get("attrs", [])):
+            t.append("decl:override-in-class-body")
+        if c.get("field_schema") is not None:
+            t.append("decl:field_schema-list")
+        if c.get("dict_of") is not None:
+            t.append("decl:Dict.of-base")
+    return t
 
 
 class Exec10(G.Exec):
     def __init__(self, case, view, check=None):
         G.Exec.__init__(self, dict(case, schema=_ctor_safe(case["schema"])), view, check)
+        self.labels = {}
         self.case = case
         self.classes = Classes10()
         self.root_cls = self.classes.build(case["schema"])
@@ -36,6 +210,8 @@ class Exec10(G.Exec):
 
 def _ctor_safe(sj):
     """G.Exec.__init__ builds the class once with the shared registry; give it a schema it understands"""
+    if sj.get("decl"):
+        return {k: v for k, v in sj.items() if k != "decl"}
     return sj
 
 
@@ -213,6 +389,13 @@ def check(ex, info):
     field_cls = {f.name: f for f in root.field_schema}
     declared = list(field_cls)
     required = [f.name for f in root.field_schema if not f.optional]
+    class_names = [f.name for f in type(root).field_schema]
+    class_dups = sorted({n for n in class_names if class_names.count(n) > 1})
+    if schema.get("decl"):
+        # the EXPECTED declaration (documented overlay computed by the case), not what the class says
+        field_cls = {s2["name"]: ex.classes.by_cid[s2["cid"]] for s2 in schema["subs"]}
+        declared = list(field_cls)
+        required = [s2["name"] for s2 in schema["subs"] if not s2["opt"]]
     minreq = kind == "sparse" and getattr(root, "minimum_fields", None) == "required"
     dense = kind in ("dict", "date")
     op = info.get("op")
@@ -239,6 +422,16 @@ def check(ex, info):
         d.update(extra)
         fails.append(d)
 
+    if info.get("init"):
+        if class_dups:
+            fail("class-fields-distinct", "every field name once in field_schema", class_names, duplicated=class_dups)
+        if schema.get("decl"):
+            got = [(f.name, ex.classes.cid_of.get(f, "class:" + f.__name__)) for f in type(root).field_schema]
+            want = [(s2["name"], s2["cid"]) for s2 in schema["subs"]]
+            if sorted(map(repr, got)) != sorted(map(repr, want)):
+                fail("class-fields-as-declared", want, got, duplicated=class_dups)
+    if class_dups and not schema.get("decl"):
+        return fails        # outside the domain of the remaining clauses (reported once, above)
     keys = list(dict.keys(root))
     extra_keys = [k for k in keys if k not in declared]
     if extra_keys:
@@ -374,6 +567,8 @@ class C10(Property):
         "Flatland.C10.Proofs.sparse_keys_nodup",
         "Flatland.C10.Proofs.dict_keys_nodup",
         "Flatland.C10.Proofs.kok_root_clause",
+        "Flatland.C10.Proofs.fieldsNodupB_iff",
+        "Flatland.C10.Proofs.nodup_init_iff",
         # Compound as a mapping
         "Flatland.C10.Proofs.prepare_length",
         "Flatland.C10.Proofs.prepare_prefix",
@@ -430,6 +625,16 @@ class C10(Property):
                   "SparseDict, every member of the shape its field class builds); blank_inv; fromFlat_inv and its clauses "
                   "fromFlat_keys_declared/_nodup/_required_present/_keys_exact. The flat invariant is per mapping "
                   "(shallow): it applies to every nested _set_flat call, a deep well-formedness predicate is not stated. "
+                  "DECLARED CLASSES (h6 follow-up): FieldsNodup (the class declares every field name once) is the hypothesis "
+                  "of keys_exact/sparse_keys/nodup_*/compound_keys_exact and is NECESSARY: nodup_init_iff (a fresh Dict of "
+                  "the model has distinct keys iff the declared names are distinct), fieldsNodupB_iff (the Boolean the "
+                  "runner reports as `fields_nodup` beside every trace; the harness reports the same of the real class, so "
+                  "a class with duplicate names is a correspondence failure). Mapping classes are also built through the "
+                  "declarative route (class X(Schema) / SparseSchema / Form, single and multiple inheritance, overlapping "
+                  "names with the same and with different field classes on the arms, overrides in the class body, "
+                  "field_schema = [...] lists, Dict.of bases); the expected field list (documented overlay: bases "
+                  "left-most first, each name once, own declarations overriding) is computed by the case and is what "
+                  "model and oracle check against. "
                   "ORACLE ONLY: Compound roots reached through set_flat inside a g1 history; the `unsupported` paths; "
                   "Compound members of Dicts in the tree model (generated only in the flat stream). "
                   "Declarative Schema roots are modelled as Dict and compared")
@@ -447,7 +652,12 @@ class C10(Property):
         "flat stream: the flat model's text normalisation (Env.norm) is irrelevant to key skeletons and set to identity",
         "the model follows containers.py as it is: SparseDict.__delitem__/pop consult the field schema's optional "
         "(the member's only for an undeclared key), `.name` is the instance's",
-        "field names are non-empty and distinct (Dict.of enforces distinctness)",
+        "field names are non-empty and distinct: Dict.of enforces it, the declarative route must produce it (checked: "
+        "oracle clauses class-fields-distinct / class-fields-as-declared, correspondence key fields_nodup); "
+        "using(field_schema=[...]) does not check it (KF-C10-c, not generated)",
+        "declarative classes: the ORDER of field_schema is documented as undefined; the case predicts the order the current "
+        "overlay algorithm produces (inherited first, overriding declarations moved to the end) for the model's key "
+        "order, the oracle compares names and classes order-free",
         "Element arguments are fresh or detached (no aliasing)",
     ]
     rule = ("histories of 1-14 dict-protocol calls (item assignment with plain values / fresh Elements / Elements detached "
@@ -455,12 +665,14 @@ class C10(Property):
             "Elements of the field class built with optional= or name= keywords; del, pop, popitem, clear, update "
             "positional dict|pairs|junk and keyword, update/|= with Element values, setdefault, get, set under explicit "
             "policy strict/subset/duck/None or the class policy, set_default, set_flat) over declared and undeclared keys, "
-            "on a Dict, declarative Schema, SparseDict (minimum_fields None/'required') with 1-3 fields "
+            "on a Dict, declarative Schema / SparseSchema / Form (70 % of them DECLARED through a generated class graph of 1-6 classes: "
+            "diamonds with an override on one arm, unrelated bases sharing a name, random multiple inheritance, own "
+            "field_schema lists, Dict.of bases, intermediate classes instantiated before the next is declared), SparseDict (minimum_fields None/'required') with 1-3 fields "
             "(Integer/String/List/Dict, optional or not, with defaults) or a DateYYYYMMDD compound; routes constructor/"
             "set/set_default/from_defaults/from_flat/set_flat. Cases the Lean model does not cover (flat routes, "
             "Compound, model paths answering unsupported) are marked oracle-only BEFORE the run and are not counted as "
             "validated traces (tag model=oracle-only). non-trivial = at least 3 calls changed the mapping or raised")
-    quick_n = 32000
+    quick_n = 24000
     thorough_n = 300000
 
     # cases are tiny (< 10 ms); the alarm only guards against a genuine hang (e.g. a cycle of parent pointers).
@@ -540,6 +752,37 @@ class C10(Property):
                 {"t": "dict", "name": "c", "opt": True, "mode": "sparse", "fields": [{"t": "leaf", "name": "x", "opt": False, "k": 0}]}]},
                 "kinds": [leafk], "sep": "_", "nd": [48], "maxdigits": 4300,
                 "rounds": [[["m_abz", "1"], ["m_zz", "2"], ["q_a", "3"]], [["m_ab", "4"], ["m_c_x", "5"], ["m_c_zz", "6"], ["m_a", "7"]]]}})
+        # seeded C10-add-unseen-by-class-object: inherited fields de-duplicated by class object instead of by name.
+        # Root.ident = String; Left(Root).ident = Integer; Right(Root).extra; Diamond(Left, Right) — and two unrelated
+        # bases declaring `name` — and the sparse diamond with minimum_fields='required'
+        pool = [_scalar(2, "string", "ident"), _scalar(3, "integer", "ident"), _scalar(4, "string", "label"),
+                _scalar(5, "string", "extra")]
+        diamond = {"base": "schema", "pool": pool, "classes": [
+            {"id": "Root", "bases": [], "attrs": [["ident", 0], ["label", 2]]},
+            {"id": "Left", "bases": ["Root"], "attrs": [["ident", 1]]},
+            {"id": "Right", "bases": ["Root"], "attrs": [["extra", 3]]},
+            {"id": "Diamond", "bases": ["Left", "Right"], "attrs": []}]}
+        hist = [_op({"op": "set", "v": {"d": [["ident", "7"], ["label", "l"], ["extra", "e"]]}}),
+                _op({"op": "setitem", "k": "ident", "a": {"v": "8"}}), _op({"op": "update", "kw": [["label", "m"]]}),
+                _op({"op": "ior", "v": {"d": [["extra", "f"]]}}), _op({"op": "setitem", "k": "nope", "a": {"v": 1}}),
+                _op({"op": "set_default"})]
+        for base, minreq in (("schema", False), ("form", False), ("sparse_schema", True)):
+            dj = dict(diamond, base=base)
+            subs = [dict(pool[i]) for i in decl_overlay(dj)["Diamond"]]
+            sch = _map("sparse_schema" if base == "sparse_schema" else "schema", subs, minreq=minreq)
+            sch["decl"] = dj
+            out.append({"schema": sch, "init": {"route": "ctor", "value": None},
+                        "ops": hist + ([_op({"op": "clear"}), _op({"op": "pop", "k": "ident"})] if minreq else [])})
+        pool2 = [_scalar(2, "string", "name"), _scalar(3, "integer", "name"), _scalar(4, "integer", "age"),
+                 _scalar(5, "integer", "count")]
+        both = {"base": "schema", "pool": pool2, "classes": [
+            {"id": "Person", "bases": [], "attrs": [["name", 0], ["age", 2]]},
+            {"id": "Counter", "bases": [], "attrs": [["name", 1], ["count", 3]]},
+            {"id": "Both", "bases": ["Person", "Counter"], "attrs": []}]}
+        sch = _map("schema", [dict(pool2[i]) for i in decl_overlay(both)["Both"]])
+        sch["decl"] = both
+        out.append({"schema": sch, "init": {"route": "ctor_value", "value": {"d": [["name", "x"], ["age", 1], ["count", 2]]}},
+                    "ops": [_op({"op": "setitem", "k": "name", "a": {"v": "y"}}), _op({"op": "get", "k": "name"})]})
         F = _map("schema", [_scalar(2, "string", "a"), _scalar(3, "integer", "b", opt=True)])
         out.append({"schema": F, "init": {"route": "from_flat", "pairs": [["a", "x"], ["b", "7"], ["zz", "1"]]}, "nomodel": True,
                     "ops": [_op({"op": "update", "kw": [["b", 1]]}), _op({"op": "delitem", "k": "a"}),
@@ -612,7 +855,13 @@ class C10(Property):
             schema = _map(kind, fields, cid=root_cid, name=rng.choice([None, "d"]),
                           policy=rng.choice(["subset", "subset", "strict", "duck", "none"]),
                           minreq=(kind in ("sparse", "sparse_schema") and rng.random() < 0.5))
-            if rng.random() < 0.3:
+            if kind in ("schema", "sparse_schema") and rng.random() < 0.7:
+                # the class is DECLARED (class syntax, single / multiple inheritance, overlapping names): the case
+                # states the declaration AND the expected overlay (`subs`)
+                decl, expected = gen_decl(rng, cid, kind == "sparse_schema")
+                schema["decl"] = decl
+                schema["subs"] = expected
+            elif rng.random() < 0.3:
                 # the class under test is DERIVED from a parent class with another field list, which (mostly) has
                 # already been used: a pre-history on the parent class precedes the case's own history
                 G.derive_mapping(rng, cid, schema)
@@ -644,6 +893,10 @@ class C10(Property):
             return self._cache[1]
         ex = Exec10(case, view, check)
         obs = ex.run()
+        # the hypothesis of keys_exact / nodup_*: the class declares every name once (compared with the model's
+        # `fields_nodup`, which is computed from the declaration the case states)
+        names = [f.name for f in type(ex.root).field_schema]
+        obs["fields_nodup"] = len(set(names)) == len(names)
         self._cache = (key, (obs, ex.failures))
         return self._cache[1]
 
@@ -708,8 +961,10 @@ class C10(Property):
              ("+supplied%d" % s["supplied"] if s["k"] == "date" and s.get("supplied") is not None else ""),
              "policy=" + s["policy"],
              "class=" + ("derived-from-%s-parent(%s)" % ("used" if s["derive"].get("use") else "unused", s["derive"]["how"])
-                         if s.get("derive") else "fresh"),
+                         if s.get("derive") else ("declared" if s.get("decl") else "fresh")),
              "route=" + case["init"]["route"], "ops=%d" % len(case["ops"])]
+        if s.get("decl"):
+            t += decl_tags(s["decl"])
         declared = [f["name"] for f in s["subs"]]
         for o, st, prev in zip(case["ops"], obs["steps"][1:], obs["steps"]):
             out = st["out"]
